@@ -2,11 +2,15 @@
 """Regenerates /verif/MANIFEST.json from the table below (single source of truth)."""
 import json, subprocess
 
-HOOK_COMMITS = ["d85c6ee", "170bde9", "43ffa35", "8043914", "4c6f2d6"]
+HOOK_COMMITS = ["d85c6ee", "170bde9", "43ffa35", "8043914", "4c6f2d6", "8d2eb59"]
 
 # id -> (engine, category, technique, level text, level note, design ref)
 CHECKS = {
- "C09": ("E1-simnet-explorer", "model_checking",
+ "C08": ("E1-simnet-explorer", "model_checking",
+   "exhaustive enumeration of storer behaviours and reply arrival orders against a real writer node over a simulated network, oracle computed from the network log",
+   "A real writer runs every put kind against 1-3 (quick) / 1-4 (thorough) scripted storing endpoints under every assignment of {no token, ack, 203, 205, 301, 302, 201, silence, late ack} and every arrival order, plus replica sets of 255/256/257/300 nodes through extra_nodes; the result is judged against which acknowledgements and 301/302 replies the log shows were delivered in time, and every write datagram is checked to go to a token issuer with its own token.",
+   "Release arithmetic (no overflow checks); replies faster than 500 ms count as in time.", "DESIGN.md section 6, C08"),
+  "C09": ("E1-simnet-explorer", "model_checking",
    "deviation-bounded exhaustive exploration of adversarial injections and reply faults on a real node over a simulated network, differential oracle against the unperturbed run",
    "A real node (real actor thread, socket layer and codec) runs a lookup and a put over scripted endpoints; at every network event an adversary may inject every (kind x guessable transaction id x wrong source) message, and every genuine reply may be duplicated or delayed past its timeout; all single deviations (quick) and pairs over the sharpest kinds (thorough) are enumerated and each execution's observable outcome (call results, routing tables, cached nodes, address votes, stored values) must equal the unperturbed one.",
    "One operation scenario (get then put, 3 endpoints); forged messages from the right address are outside the oracle.", "DESIGN.md section 6, C09"),
